@@ -5,6 +5,7 @@
 //! must equal the model, and every extracted observable must equal the model's.
 
 pub mod edge;
+pub mod fallible;
 pub mod owned;
 
 use num_traits::{One, Zero};
@@ -511,6 +512,16 @@ pub fn property() -> Property {
             kind: Kind::Tape { len: 160, quick: 60_000, thorough: 3_000_000, f: edge::display_flags },
         },
         Check {
+            name: "display-fallible-sink",
+            about: "exhaustive: Display written with write!(sink, SPEC, m) into sinks that reject a write - from the k-th write_str call on, only the k-th call (later calls accepted), or beyond a byte capacity c (later shorter pieces accepted) - for EVERY k in 0 ..= total+1 and EVERY c in 0 ..= len+1, x 7 element domains (i32, f64 specials, &str incl. empty and multi-byte, String, u64, a three-piece element, char) x sizes 2-4 x 9 format specs (flags, run-time w$.p$, literal text around) x 2 value choices: row-major and col-major leave the same accepted bytes in the sink and return the same fmt::Result; per layout the pieces offered up to the first rejected one are a prefix of '( m00 .. )' built from the elements alone, nothing is offered after a rejected piece, Err iff something was rejected",
+            kind: Kind::Index { total: fallible::sinks_total(), quick: 1_000_000, thorough: 1_000_000, f: fallible::fallible_sinks },
+        },
+        Check {
+            name: "display-failing-element",
+            about: "exhaustive: matrices of three-piece elements where the element at (i,j) returns Err from its own Display::fmt (before writing, after its first piece, or after all its text) - every (i,j) of every size x 3 ways of failing x which other elements fail too (none / all later ones in row order / those later in row order but earlier in column order) x plain and literal-wrapped spec x 4 sink families (std String + unfailing recorder, fail-from-k, fail-only-k, byte capacity; every k / c as in display-fallible-sink): both layouts stop exactly where the first failing element in ROW order gave up, return Err, hold the same bytes",
+            kind: Kind::Index { total: fallible::elements_total(), quick: 1_000_000, thorough: 1_000_000, f: fallible::failing_elements },
+        },
+        Check {
             name: "numeric-edges",
             about: "as_ (to i32, u8, i64, u64, f32, f64) and numcast (Some/None as a whole) on f64 matrices of IEEE specials / integers next to the i32, i64, 2^24, 2^53 bounds and on i64 matrices next to the limits, per element at the same (i,j) in both layouts; transposed, layout conversion, nested arrays, diagonal and indexing move specials bit for bit",
             kind: Kind::Tape { len: 400, quick: 40_000, thorough: 1_500_000, f: edge::numeric_edges },
@@ -523,7 +534,7 @@ pub fn property() -> Property {
     ];
     Property {
         id: "C03",
-        rule: "a case is a generated program: start size in {2,3,4}, 0-12 steps chosen from 26 operations with generated arguments; elements are pairwise distinct opaque terms, so no matrix is ever symmetric and any (i,j)/(j,i) confusion is visible; non-trivial = at least 2 steps (numeric check: >= 3 non-zero entries and A != A^T; index-bounds: at least one of i, j is outside 0..N; display-flags: the spec is not the plain one, the text differs from the plain text - a dropped flag shows - and differs from the text of the transpose; numeric-edges: >= 2 special / near-limit elements and neither matrix is bitwise symmetric; programs-owned: as programs-sym, at least 2 steps, elements are pairwise distinct images of a 64-bit mixer); distinct = distinct consumed tape prefix (index-bounds: distinct index)",
+        rule: "a case is a generated program: start size in {2,3,4}, 0-12 steps chosen from 26 operations with generated arguments; elements are pairwise distinct opaque terms, so no matrix is ever symmetric and any (i,j)/(j,i) confusion is visible; non-trivial = at least 2 steps (numeric check: >= 3 non-zero entries and A != A^T; index-bounds: at least one of i, j is outside 0..N; display-flags: the spec is not the plain one, the text differs from the plain text - a dropped flag shows - and differs from the text of the transpose; numeric-edges: >= 2 special / near-limit elements and neither matrix is bitwise symmetric; programs-owned: as programs-sym, at least 2 steps, elements are pairwise distinct images of a 64-bit mixer; display-fallible-sink / display-failing-element: the text of the matrix differs from the text of its transpose, and a write was rejected after the first accepted byte or an element gave up on its own); distinct = distinct consumed tape prefix (index-bounds: distinct index)",
         assumptions: &[
             "rustc and the proptest runner/shrinker are trusted",
             "the public rows/cols fields are the ground truth: row-major rows.x is row 0, column-major cols.x is column 0",
@@ -533,6 +544,7 @@ pub fn property() -> Property {
             "as_ is the per-element `as` cast and numcast the per-element scalar NumCast (oracles use the scalar operations, never the matrix ones); NaN payloads are not compared, every NaN counts as equal to every other",
             "programs-owned: element values are members of the ring Z/2^64 (u16 domain: Z/2^16) stored in types that differ in drop glue / Copy / size / alignment; + and * are the wrapping ring operations, so Zero / One are lawful and trace() is independent of summation order; distinctness of the generated elements holds up to hash collisions (2^-64 per pair; 2^-16 in the u16 domain), which can only hide a defect, never cause a false alarm, because the model is computed from the same element values; drop counting (leaks, double drops) is property C18's and is not asserted here; One for matrices, apply, apply2, with_diagonal, broadcast_diagonal, as_ and numcast need T: Copy / numeric T in vek and are run in the Copy domains only",
             "programs-big / domain-sweep: a torn (partially copied) big element is recognised by its words not fitting together and then compares unequal to every model element; a case needs < 1 MiB of stack (state boxed, one frame per operation)",
+            "Display into a fallible sink: the general contract of fmt (std::fmt::Write::write_str: the error is there to abort the formatting operation and is to be propagated by formatting-trait impls; vek's impls use `?` on every write) is taken to bind Display for matrices: after a rejected write_str nothing more is offered to the sink and the result is Err; an Err returned by an element's own fmt counts the same way (no further write, result Err), also when the sink itself accepted everything. Where vek cuts the text into write_str pieces is NOT asserted against the reference (only: the pieces offered up to the first rejected one concatenate to a prefix of the text); between the two layouts the accepted bytes and the Result must be equal for every sink, which does expose a cut that differs between the layouts under a capacity sink - 'this format doesn't depend on the storage layout' is read as covering everything a fmt::Write sink can observe of the accepted text. Not asserted: anything about Debug; to_string() / format!() with failing elements (std panics there by design)",
             "not asserted: the order in which map / map2 / apply call the closure, the association order of trace() (so no trace on values that can overflow or round), Debug output (derived, shows the storage)",
         ],
         checks,
